@@ -332,6 +332,13 @@ PowerLoss ==
 Next == Writer \/ Reader \/ Seeker \/ Packer \/ Crash \/ Fault \/ PowerLoss
 Spec == Init /\ [][Next]_vars
 
+(* Liveness: nobody waits for anybody.  The only lock is the packer's own lock file, a reader never blocks on the packer,
+   the seeking reader's retries are bounded: under weak fairness of each actor every call returns. *)
+FairSpec == Spec /\ WF_vars(Writer) /\ WF_vars(Reader) /\ WF_vars(Seeker) /\ WF_vars(Packer)
+AllReturned == /\ wpc = "w_start" /\ wi > Len(WriterAdds)
+               /\ rpc = "r_done" /\ ppc = "p_done" /\ spc = "s_done"
+EveryCallReturns == <>AllReturned
+
 -----------------------------------------------------------------------------
 (* Properties                                                               *)
 TypeOK == /\ \A k \in Keys : loose[k] \in {"absent", "good", "torn"}
